@@ -3110,15 +3110,31 @@ static void build_stmt(WorkList *list, ScopeStack *scopes, ASTNode *stmt, int in
                 range->as.call.name && strcmp(range->as.call.name, "range") == 0 &&
                 range->as.call.arg_count == 2) {
                 
+                /* The range end is evaluated once, after the start and before
+                 * the first iteration (as in the interpreter and the VM), not
+                 * on every iteration: unless it is a literal, keep it in a
+                 * second variable of the for-init declaration:
+                 *   for (int64_t i = start, _nl_end_i = end; i < _nl_end_i; i++) */
+                ASTNode *end_expr = range->as.call.args[1];
+                bool hoist_end = end_expr && end_expr->type != AST_NUMBER;
+
                 emit_indent_item(list, indent);
                 emit_literal(list, "for (int64_t ");
                 emit_literal(list, var);
                 emit_literal(list, " = ");
                 build_expr(list, range->as.call.args[0], env);
+                if (hoist_end) {
+                    emit_formatted(list, ", _nl_end_%s = ", var);
+                    build_expr(list, end_expr, env);
+                }
                 emit_literal(list, "; ");
                 emit_literal(list, var);
                 emit_literal(list, " < ");
-                build_expr(list, range->as.call.args[1], env);
+                if (hoist_end) {
+                    emit_formatted(list, "_nl_end_%s", var);
+                } else {
+                    build_expr(list, end_expr, env);
+                }
                 emit_literal(list, "; ");
                 emit_literal(list, var);
                 emit_literal(list, "++) ");
